@@ -108,7 +108,10 @@ Definition sample (pi : Q) (rot : Q -> Q -> Q * Q) (v : variant) (nx ny : Z) (lo
   let lb := frame rot v lon lat in
   (row pi ny (snd lb), col pi v nx (fst lb)).
 
-(* ---- the call into astropy as written -------------------------------------
+(* ---- the call into astropy as written in the snapshot under verification ---
+   (the repaired form [frame_arg_fixed] is fixes/C11-1.patch; once that is applied
+   to the tree, [sample_fixed] is the code that exists and [sample_coded] documents
+   the defect that the correspondence reports if the fix is reverted)
    samplers.py:243  ICRS(..).transform_to(Galactic)      <- the frame *class*
    samplers.py:289  ICRS(..).transform_to(Ecliptic())    <- a frame instance
    (samplers.py:85, the HEALPix sampler, passes Galactic() — an instance.)
